@@ -10,6 +10,7 @@ TECH = ("contract-based deductive verification: weakest-precondition VCs generat
 CLAIMED = {
  "C01": ("proof", "exact spec-function contracts on the planned-count / percent-partition arithmetic (1% slack proved for all int32 replicas and plans), every CalculateBatchContext (exposure of the written knob vs. planned count), every UpgradeBatch (at most one write, only toward more updated pods, body encodes the desired value), currentBatch moves only below batchPartition (moveToNextBatch, progressBatches, signalRecalculate)"),
  "C02": ("proof", "the per-step sub-state machine of both release managers: runCanary's postcondition IS its transition relation (index moves only by an explicit jump or from Ready to the next step's Init; Ready only from Paused with the pause gate satisfied; MetricsAnalysis/TrafficRouting only after doCanaryUpgrade resp. DoTrafficRouting reported done); doCanaryUpgrade done => BatchRelease Ready for this step and generation observed; doCanaryPaused true => last 100% step or a duration; doCanaryJump only on a user-set next index; doProgressingInRolling dispatch order incl. spec.strategy.paused short-circuit"),
+ "C03": ("proof", "runCanary's transition relation (traffic is written only in state TrafficRouting, which is entered only after doCanaryUpgrade reported done; done => the BatchRelease is Ready for this very step with the plan and generation observed), StepInit of a first step that configures traffic or matches is left only after PatchStableService reported completion, DoTrafficRouting reports routed only when the provider's EnsureRoutes returned (true,nil) for the step's own strategy in that same call and no Service was written in that call. Not covered here: that the provider's verified state equals the step's value exactly (gateway/ingress providers: C13, C14)"),
  "C04": ("proof", "typestate ordering of API effects, decided function by function and therefore at every call prefix (= crash point): RemoveCanaryService requires routes withdrawn (RestoreGateway completed), removing the BatchRelease requires routes withdrawn (when traffic routing is configured), resuming the workload requires the stable Service un-pinned (non-rollback) resp. routes withdrawn (rollback); finalising cursor invariant proved step-inductively for both managers and the continuous-release reset; task successor functions equal their specification tables; un-pin before a partition step that replaces all stable pods"),
  "C09": ("proof", "partial (the structural-promise half is proved, the whole-controller no-panic half only at the call sites listed): every validate* function of the v1beta1 and v1alpha1 webhook has the postcondition 'empty error list => well-formed' (exactly one strategy, >= 1 step, every step's replicas parse and are positive, comparable neighbours non-decreasing, <= 1 traffic routing and each well-formed), validateRolloutConflict 'empty => no other Rollout in the listed namespace references the same workload', validateRolloutUpdate 'empty and stored phase Progressing/Terminating => workload ref, style and step count unchanged'; NextBatchIndex / handleNormalRolling correct an out-of-range nextStepIndex before any step slice is indexed (index-safety obligations of runCanary, doCanaryJump, newTrafficRoutingContext hold under the cursor invariant). Not covered: panics in functions without contracts (see evidence: not claimed), the v1alpha1 context builder dereferences workloadRef before validation (recovered by net/http, recorded as an unclaimed refuted obligation)"),
  "C10": ("proof", "dispatch order of the special cases (rollback before paused before batches before continuous before plan change), rollback task chains start with RouteTrafficToStable (task successor = spec + chain lemmas), reset order gateway -> BatchRelease -> canary Service by typestate, blue-green refuses supersession with a BadRequest error and no effect, canary supersession clears the status and restarts from Initializing only when the reset completed"),
